@@ -6,7 +6,7 @@
    the repaired and the legacy state machine ([legacy]). *)
 From Coq Require Import List NArith Bool.
 Import ListNotations.
-From AnySync Require Import Model.Acl Proofs.AclBase Proofs.AclC03.
+From AnySync Require Import Model.Acl Model.AclOneToOne Proofs.AclBase Proofs.AclC03 Proofs.AclOneToOne.
 Open Scope N_scope.
 
 (* accept => extends the head, id = CID(bytes), author signature verifies, acceptor signature verifies when the
@@ -94,6 +94,81 @@ Theorem c03_scan_guard : forall l root hd, is_contiguous_chain l root hd = true 
 Proof. exact scan_guard. Qed.
 Print Assumptions c03_scan_guard.
 
+(* ==== one-to-one ACLs (Model/AclOneToOne.v; root with OneToOneInfo: shared owner key + two writers).
+   [oadd_raw false ...] is the REPAIRED machine (fixes/C03-aclstate-copy-keeps-onetoone.patch: AclState.Copy() keeps the
+   isOneToOne flag); [oadd_raw true ...] is the code before the repair, refuted below. *)
+
+(* a one-to-one list accepts nothing, whoever signed the record and whatever it contains ... *)
+Theorem c03_one_to_one_rejects : forall legacy need_acc v me l w, o_one l = true ->
+  oadd_raw false legacy need_acc v me l w = (if memN (w_id w) (l_ids (o_list l)) then OAddDup else OAddRejected).
+Proof. exact one_rejects. Qed.
+Print Assumptions c03_one_to_one_rejects.
+
+(* ... and for EVERY sequence of offered records: flag, head, state, in-memory log and storage never change *)
+Theorem c03_one_to_one_frozen : forall legacy need_acc v me ws l, o_one l = true ->
+  fold_left (oadd_raw_keep false legacy need_acc v me) ws l = l.
+Proof. exact one_frozen. Qed.
+Print Assumptions c03_one_to_one_frozen.
+
+Theorem c03_one_to_one_batch_frozen : forall legacy need_acc v me ws l, o_one l = true ->
+  oadd_raws false legacy need_acc v me l ws = (l, forallb (fun w => memN (w_id w) (l_ids (o_list l))) ws).
+Proof. exact one_batch_frozen. Qed.
+Print Assumptions c03_one_to_one_batch_frozen.
+
+(* a list that is not one-to-one is exactly the ordinary list of the theorems above (repaired or not) *)
+Theorem c03_not_one_to_one_same : forall legacy need_acc v me lc l w, o_one l = false ->
+  oadd_raw lc legacy need_acc v me l w = lift (add_raw legacy need_acc v me (o_list l) w).
+Proof. exact not_one_same. Qed.
+Print Assumptions c03_not_one_to_one_same.
+
+Theorem c03_one_to_one_flag_constant : forall legacy need_acc v me ws one l0,
+  o_one (fold_left (oadd_raw_keep false legacy need_acc v me) ws (mkOList one l0)) = one.
+Proof. exact flag_constant. Qed.
+Print Assumptions c03_one_to_one_flag_constant.
+
+(* live = rebuilt from storage, for one-to-one and ordinary lists alike, after every delivery sequence *)
+Theorem c03_one_to_one_rebuild_eq : forall legacy need_acc v me ws one s0 root,
+  let l := fold_left (oadd_raw_keep false legacy need_acc v me) ws (mkOList one (mkList s0 [root] [])) in
+  obuild legacy need_acc v me one s0 root (l_store (o_list l)) = Some l.
+Proof. exact o_rebuild_eq. Qed.
+Print Assumptions c03_one_to_one_rebuild_eq.
+
+Theorem c03_one_to_one_catchup_eq : forall legacy need_acc v me wsA wsE s0 root,
+  let A := fold_left (oadd_raw_keep false legacy need_acc v me) wsA (mkOList true (mkList s0 [root] [])) in
+  let E := fold_left (oadd_raw_keep false legacy need_acc v me) wsE (mkOList true (mkList s0 [root] [])) in
+  records_after (o_list A) root (head (o_list E)) = Some [] /\
+  oadd_raws false legacy need_acc v me E [] = (A, true) /\ E = A.
+Proof. exact one_catchup_eq. Qed.
+Print Assumptions c03_one_to_one_catchup_eq.
+
+(* the model satisfies the specification predicates evaluated on the implementation's observations *)
+Theorem c03_one_to_one_add_spec : forall legacy need_acc v me l w root, o_one l = true ->
+  l_ids (o_list l) = root :: map w_id (l_store (o_list l)) ->
+  let l' := oadd_raw_keep false legacy need_acc v me l w in
+  spec_one_add (l_state (o_list l)) (l_ids (o_list l)) (outcome_of (oadd_raw false legacy need_acc v me l w))
+               (o_one l') (l_state (o_list l')) (l_ids (o_list l')) (root :: map w_id (l_store (o_list l'))) = true.
+Proof. exact one_add_spec. Qed.
+Print Assumptions c03_one_to_one_add_spec.
+
+Theorem c03_one_to_one_batch_spec : forall legacy need_acc v me l ws root, o_one l = true ->
+  l_ids (o_list l) = root :: map w_id (l_store (o_list l)) ->
+  let r := oadd_raws false legacy need_acc v me l ws in
+  spec_one_batch (l_state (o_list l)) (l_ids (o_list l)) ws (snd r)
+                 (o_one (fst r)) (l_state (o_list (fst r))) (l_ids (o_list (fst r)))
+                 (root :: map w_id (l_store (o_list (fst r)))) = true.
+Proof. exact one_batch_spec. Qed.
+Print Assumptions c03_one_to_one_batch_spec.
+
+Theorem c03_rebuild_spec : forall legacy need_acc v me ws one s0 root,
+  let l := fold_left (oadd_raw_keep false legacy need_acc v me) ws (mkOList one (mkList s0 [root] [])) in
+  match obuild legacy need_acc v me one s0 root (l_store (o_list l)) with
+  | Some r => spec_rebuild (o_one l) (l_state (o_list l)) (l_ids (o_list l))
+                           true (o_one r) (l_state (o_list r)) (l_ids (o_list r)) = true
+  | None => False
+  end.
+Proof. exact rebuild_spec. Qed.
+Print Assumptions c03_rebuild_spec.
+
 (* ---- non-vacuity *)
 Definition w2 : raw := mkRaw 2 true true true true 1 1 [CAccountsAdd [(2, 2); (4, 3)]].
 Definition w3 : raw := mkRaw 3 true true true true 2 2 [CInvite 101 1 3 true; CPermChange 4 4].
@@ -118,3 +193,44 @@ Example c03_partial_decode_nonvacuous :
   decode false 2 [CReadKeyChange rk] = [CReadKeyChange (mkRk true true [2] [])] /\
   exists s', apply_record false false 2 (l_state l2) 1 9 (decode false 2 [CReadKeyChange rk]) = Some s' /\ mykeys s' = [9].
 Proof. vm_compute. split; [reflexivity|]. eexists. split; reflexivity. Qed.
+
+(* ---- one-to-one: non-vacuity and the refutation of the code before the repair.
+   Root 1; shared owner key 50, writers 1 and 2; the list belongs to writer 1 (validating, acceptor required). *)
+Definition s1to1 : state := init_one 1 50 1 2 1.
+Definition o0 : olist := mkOList true (mkList s1to1 [1] []).
+(* correctly signed, chained onto the root, consensus-accepted records by the shared owner key / a writer / a stranger *)
+Definition x_invite : raw := mkRaw 2 true true true true 1 50 [CInvite 101 0 0 false].
+Definition x_add : raw := mkRaw 3 true true true true 1 50 [CAccountsAdd [(7, 3)]; COptions (Some true)].
+Definition x_writer : raw := mkRaw 4 true true true true 1 2 [CRequestRemove].
+Definition x_stranger : raw := mkRaw 5 true true true true 1 9 [CEmpty].
+Definition x_root : raw := mkRaw 1 true false true true 0 50 [].
+
+Example c03_one_to_one_nonvacuous :
+  perm_of s1to1 50 = pOwner /\ perm_of s1to1 1 = pWriter /\ perm_of s1to1 2 = pWriter /\ mykeys s1to1 = [1] /\
+  mykeys (init_one 999 50 1 2 1) = [] /\
+  (* on an ORDINARY list in the same state each of the first three records would be accepted ... *)
+  (exists l', add_raw false true true 1 (o_list o0) x_invite = AddOk l' /\ length (invites (l_state l')) = 1%nat) /\
+  (exists l', add_raw false true true 1 (o_list o0) x_add = AddOk l' /\ perm_of (l_state l') 7 = pWriter) /\
+  (exists l', add_raw false true true 1 (o_list o0) x_writer = AddOk l') /\
+  (* ... the one-to-one list refuses them all and stays what it was; the root is a duplicate *)
+  oadd_raw false false true true 1 o0 x_invite = OAddRejected /\
+  oadd_raw false false true true 1 o0 x_add = OAddRejected /\
+  oadd_raw false false true true 1 o0 x_writer = OAddRejected /\
+  oadd_raw false false true true 1 o0 x_stranger = OAddRejected /\
+  oadd_raw false false true true 1 o0 x_root = OAddDup /\
+  fold_left (oadd_raw_keep false false true true 1) [x_invite; x_root; x_add; x_writer; x_stranger] o0 = o0 /\
+  oadd_raws false false true true 1 o0 [x_root; x_invite; x_add] = (o0, false) /\
+  oadd_raws false false true true 1 o0 [x_root; x_root] = (o0, true) /\
+  obuild false true true 1 true s1to1 1 (l_store (o_list o0)) = Some o0.
+Proof. vm_compute. repeat split; try reflexivity; eexists; split; reflexivity. Qed.
+
+(* the code before the repair (Copy() drops the flag): the live list accepts the owner-key record, is no longer
+   one-to-one, goes on accepting records -- and the storage it wrote cannot be rebuilt *)
+Example c03_one_to_one_legacy_refuted :
+  exists l1 l2,
+    oadd_raw true false true true 1 o0 x_invite = OAddOk l1 /\ o_one l1 = false /\ head (o_list l1) = 2 /\
+    oadd_raw true false true true 1 l1 (mkRaw 6 true true true true 2 50 [CAccountsAdd [(7, 2)]]) = OAddOk l2 /\
+    perm_of (l_state (o_list l2)) 7 = pAdmin /\
+    obuild false true true 1 true s1to1 1 (l_store (o_list l1)) = None /\
+    obuild false true true 1 true s1to1 1 (l_store (o_list l2)) = None.
+Proof. vm_compute. do 2 eexists. repeat split; reflexivity. Qed.
